@@ -8,6 +8,7 @@ import (
 	"io"
 
 	"github.com/kstenerud/go-concise-encoding/cbe"
+	"github.com/kstenerud/go-concise-encoding/ce"
 	"github.com/kstenerud/go-concise-encoding/ce/events"
 	"github.com/kstenerud/go-concise-encoding/configuration"
 	"github.com/kstenerud/go-concise-encoding/internal/verifh"
@@ -129,4 +130,26 @@ func Verif_C28_TruncatedDocs() {
 	cut := verifrt.Choice("cut", 4) + 1
 	verifrt.Assume(cut < len(doc))
 	compare(doc[:len(doc)-cut])
+}
+
+// The universal decoder puts a bufio.Reader in front of the user's reader; the
+// result must still not depend on the schedule.
+func Verif_C28_UniversalStream() {
+	// short documents: behind bufio every composition of the document length is a schedule
+	k := 0
+	if verifrt.Thorough() {
+		k = []int{0, 1, 4}[verifrt.Choice("doc", 3)]
+	}
+	v := uint64(verifrt.U8("v")) | 0x100 // a 16-bit integer: 5-byte document
+	doc := makeDoc(k, v)
+	cfg := configuration.New()
+	recM, recS := &verifh.Rec{}, &verifh.Rec{}
+	errM := ce.NewCEDecoder(cfg).DecodeDocument(doc, rules.NewRules(recM, cfg))
+	rd := &schedReader{data: doc}
+	errS := ce.NewCEDecoder(cfg).Decode(rd, rules.NewRules(recS, cfg))
+	verifrt.Reach("compared")
+	verifrt.Assert((errM == nil) == (errS == nil), "universal stream decoding reports the same error-ness as in-memory decoding")
+	if errM == nil {
+		verifrt.Assert(sameEvents(recM, recS), "universal stream decoding emits the same events as in-memory decoding")
+	}
 }
